@@ -403,6 +403,42 @@ theorem header_accept_requires_known_parent (e : HF.Env) (b : HF.BState) (h : HF
         | (simp_all [HF.inIndex, HF.Res.isErr])
   · simp [h1, HF.Res.isErr] at hok
 
+/-- orphan pool: below the bound nothing is evicted; the pool never holds more than 101 orphans
+    (one above the nominal bound: when the cached oldest pointer is stale nothing is evicted once).
+    `PoolOk` is the invariant (it holds initially and `addOrphan` keeps it; removing orphans keeps
+    it trivially). -/
+theorem orphan_pool_bound (b : HF.BState) (n : Nat) :
+    (b.orphans.length < HF.MAX_ORPHANS → (HF.addOrphan b n).orphans = b.orphans ++ [n]) ∧
+    (HF.PoolOk b → HF.PoolOk (HF.addOrphan b n)) ∧ HF.PoolOk {} := by
+  unfold HF.PoolOk HF.addOrphan HF.MAX_ORPHANS
+  simp only []
+  refine ⟨?_, ?_, by decide⟩
+  · intro h
+    have : ¬ b.orphans.length + 1 > 100 := by omega
+    simp [this]
+  · rintro ⟨h1, h2⟩
+    by_cases hf : b.orphans.length + 1 > 100
+    · simp only [hf, if_true]
+      cases ho : b.oldest with
+      | some o =>
+        have hl := h2 (by simp [ho])
+        simp only [List.length_append, List.length_cons, List.length_nil]
+        have := List.length_erase_le (a := o) (l := b.orphans)
+        exact ⟨by omega, by simp⟩
+      | none =>
+        simp only []
+        cases hh : b.orphans.head? with
+        | none =>
+          have : b.orphans = [] := by simpa using hh
+          rw [this] at hf; simp at hf
+        | some o =>
+          have hmem : o ∈ b.orphans := List.mem_of_mem_head? hh
+          simp only [List.length_append, List.length_cons, List.length_nil]
+          rw [List.length_erase_of_mem hmem]
+          exact ⟨by omega, by simp⟩
+    · simp only [hf, if_false, List.length_append, List.length_cons, List.length_nil]
+      exact ⟨by omega, fun _ => by omega⟩
+
 /-- a failed re-organisation (a block of the branch fails validation, or the branch holds a
     known-invalid block) never moves the best tip -/
 theorem failed_reorg_keeps_tip (e : HF.Env) (b : HF.BState) (n : Nat)
